@@ -323,7 +323,13 @@ class Scenario:
         random.seed(self.case["rseed"])
         target = UDPv4Address(*self.I.address)
         # A first (nobody to be introduced to yet), B last (its NAT has then only ever contacted I)
+        new_only = self.case["rseed"] % 2 == 1
         for n in [self.A, *self.fillers, self.B]:
+            if n is not self.A and n.new and new_only:
+                # a node whose ONLY contact with the introducer is a new-style request (built with the public API)
+                n.overlay.endpoint.send(target, n.overlay.create_introduction_request(target, new_style=True))
+                self.drain_fifo()
+                continue
             n.overlay.walk_to(target)
             self.drain_fifo()
             if n is not self.A and n.new:
